@@ -254,7 +254,7 @@ def try_remove(parent, name):
 @st.composite
 def abstract_spec(draw):
     total = draw(st.sampled_from([1, 5, 19, 20, 21, 40]))
-    form = draw(st.integers(0, 6))
+    form = draw(st.sampled_from([0, 1, 2, 3, 4, 5, 6, 7, 7, 7, 8, 8]))
     if form == 0:
         return {"n": "abstract", "c": words(total, draw(st.sampled_from([" ", "\n", "  "])))}
     if form == 1:
@@ -274,7 +274,18 @@ def abstract_spec(draw):
         a = draw(st.integers(1, total)) if total > 1 else 1
         ks = [{"n": "para", "c": words(total - a)}] if total - a else [{"n": "para", "k": [{"n": "subscript", "c": "2"}]}]
         return {"n": "abstract", "c": words(a), "k": ks}
-    return {"n": "abstract", "k": [{"n": "para"}, {"n": "markdown", "c": words(total)}]}
+    if form == 6:
+        return {"n": "abstract", "k": [{"n": "para"}, {"n": "markdown", "c": words(total)}]}
+    a = draw(st.integers(0, total))
+    # text nested below a para through a list, and below nested sections: still part of the abstract
+    inner = {"n": "para", "c": words(total - a)} if total - a else {"n": "para"}
+    lst = draw(st.sampled_from(["itemizedlist", "orderedlist"]))
+    outer = {"n": "para", "k": [{"n": lst, "k": [{"n": "listitem", "k": [inner]}]}]}
+    if a:
+        outer["c"] = words(a)
+    if form == 7:
+        return {"n": "abstract", "k": [outer]}
+    return {"n": "abstract", "k": [{"n": "section", "k": [{"n": "section", "k": [outer]}]}]}
 
 
 @st.composite
